@@ -426,6 +426,75 @@ fn composites_cached(path: &'static str) -> &'static Vec<(u16, Vec<u16>)> {
     *m.entry(path).or_insert_with(|| Box::leak(Box::new(composites(path))))
 }
 
+/// charstring byte lengths of a CFF fixture (glyph id -> length), for building subsets whose CharStrings
+/// INDEX holds an exact number of data bytes
+fn cff_charstring_lengths(path: &str) -> Vec<usize> {
+    let data = fixture(path);
+    let fd = match ReadScope::new(&data).read::<FontData<'_>>() {
+        Ok(f) => f,
+        Err(_) => return vec![],
+    };
+    let p = match fd.table_provider(0) {
+        Ok(p) => p,
+        Err(_) => return vec![],
+    };
+    let cff_d = match p.table_data(tag::CFF).ok().flatten() {
+        Some(d) => d.into_owned(),
+        None => return vec![],
+    };
+    let cff = match ReadScope::new(&cff_d).read::<CFF<'_>>() {
+        Ok(c) => c,
+        Err(_) => return vec![],
+    };
+    match cff.fonts.first() {
+        Some(f) => (0..f.char_strings_index.len()).map(|i| f.char_strings_index.read_object(i).map(|o| o.len()).unwrap_or(0)).collect(),
+        None => vec![],
+    }
+}
+
+fn cff_lengths_cached(path: &'static str) -> &'static Vec<usize> {
+    use std::sync::{Mutex, OnceLock};
+    static CACHE: OnceLock<Mutex<HashMap<&'static str, &'static Vec<usize>>>> = OnceLock::new();
+    let mut m = CACHE.get_or_init(|| Mutex::new(HashMap::new())).lock().unwrap();
+    *m.entry(path).or_insert_with(|| Box::leak(Box::new(cff_charstring_lengths(path))))
+}
+
+/// glyph ids (with .notdef) whose charstrings add up to `target` bytes or as close below it as a random
+/// greedy fill gets (the exact hit is what crosses an offSize boundary of the INDEX: 255, 65535 data bytes)
+fn cff_subset_with_data_size(rng: &mut Rng, lens: &[usize], target: usize) -> Vec<u16> {
+    let mut ids: Vec<u16> = vec![0];
+    let mut sum = lens.first().copied().unwrap_or(0);
+    let n = lens.len().min(65535);
+    let mut tries = 0;
+    while sum < target && tries < 20000 && ids.len() < n {
+        tries += 1;
+        let need = target - sum;
+        // an exact finisher if one exists among a few random probes, else any glyph that still fits
+        let mut pick = None;
+        for _ in 0..64 {
+            let g = 1 + rng.below(n as u64 - 1) as usize;
+            if ids.contains(&(g as u16)) || lens[g] == 0 {
+                continue;
+            }
+            if lens[g] == need {
+                pick = Some(g);
+                break;
+            }
+            if lens[g] < need && (need - lens[g] > 8 || need < 300) && pick.is_none() {
+                pick = Some(g);
+            }
+        }
+        match pick {
+            Some(g) => {
+                ids.push(g as u16);
+                sum += lens[g];
+            }
+            None => break,
+        }
+    }
+    ids
+}
+
 pub fn gen(rng: &mut Rng) -> String {
     match if std::env::var_os("C09_BIG").is_some() { 11 } else { rng.below(12) } {
         0 | 2 | 3 => {
@@ -433,6 +502,13 @@ pub fn gen(rng: &mut Rng) -> String {
             let k = (1 + rng.below(6) as usize).min(n as usize);
             let mut g: Vec<u16> = vec![0];
             let comps = composites_cached(f);
+            let lens = cff_lengths_cached(f);
+            if lens.len() > 2 && rng.chance(1, 3) {
+                // CFF: a subset whose CharStrings INDEX data is at / next to an offset-size boundary
+                let target = *rng.pick(&[255usize, 255, 254, 256, 65535, 65535, 65534, 65536]);
+                let g = cff_subset_with_data_size(rng, lens, target);
+                return format!("S|{}|{}", f, g.iter().map(|x| x.to_string()).collect::<Vec<_>>().join(","));
+            }
             if !comps.is_empty() && rng.chance(1, 2) {
                 // a list that ends in a composite glyph whose components precede it, so that the
                 // re-encoded composite is the last glyph of the output (odd instruction lengths occur)
